@@ -60,6 +60,14 @@ def floatH : Handler (List Nat) := fun acc _ suffix =>
   let r := readFloat64 suffix
   if r.err.isNone && !r.panicked then (acc ++ [r.val], r.p, none) else (acc, 0, some 1)
 
+/-- a field-selective handler written against the public API: read the member whose raw name is `key` with `ReadFloat64`
+    (the last such member wins), decline every other member — the traversal then skips it itself -/
+def fieldFloatH (key : Bytes) : Handler (Option Nat) := fun acc field suffix =>
+  if field == key then
+    let r := readFloat64 suffix
+    if r.err.isNone && !r.panicked then (some r.val, r.p, none) else (acc, 0, some 1)
+  else (acc, 0, none)
+
 abbrev Readers := (Nat → Bytes → R JVal) × (Nat → Bytes → R JVal)
 
 /-- `readSimpleValue(data, tknType)` -/
